@@ -37,6 +37,53 @@ fn fix_divert_paths(value: &mut Value, old_path: &str, new_path: &str) {
     }
 }
 
+/// Move the `g-N` continuations of a labelled gather's container up into the enclosing weave
+/// container `out`. Every labelled gather numbers its continuations from `g-0`, so a name that
+/// the weave already holds is renumbered to the next free one (as inklecate's per-weave count of
+/// unnamed gathers does) instead of replacing the earlier gather.
+fn hoist_gather_continuations(
+    out: &mut EmittedContainer,
+    sub_container: &mut EmittedContainer,
+    sub_scope: &EmitScope,
+    scope: &EmitScope,
+) {
+    let g_keys: Vec<String> = sub_container
+        .named
+        .keys()
+        .filter(|key| key.starts_with("g-"))
+        .cloned()
+        .collect();
+    let mut hoisted: Vec<(String, String)> = Vec::new();
+    for key in g_keys {
+        let taken = |name: &str| {
+            out.named.contains_key(name) || hoisted.iter().any(|(_, used)| used == name)
+        };
+        let mut new_key = key.clone();
+        let mut n = 0;
+        while taken(&new_key) {
+            new_key = format!("g-{n}");
+            n += 1;
+        }
+        hoisted.push((key, new_key));
+    }
+    for (key, new_key) in &hoisted {
+        let old_path = format!("{}.{}", sub_scope.path, key);
+        let new_path = format!("{}.{}", scope.path, new_key);
+        for value in sub_container.content.iter_mut() {
+            fix_divert_paths(value, &old_path, &new_path);
+        }
+        for value in sub_container.named.values_mut() {
+            fix_divert_paths(value, &old_path, &new_path);
+        }
+    }
+    for (key, new_key) in hoisted {
+        let mut value = sub_container.named.remove(&key).unwrap();
+        let hoisted_path = format!("{}.{}", scope.path, new_key);
+        replace_self_divert_with_done(&mut value, &hoisted_path);
+        out.insert_named(new_key, value);
+    }
+}
+
 fn threaded_loop_label_for_choice_block(continuation: &[Node]) -> Option<(String, bool)> {
     let mut nodes = continuation;
     while !nodes.is_empty() && matches!(nodes[0], Node::Newline) {
@@ -469,28 +516,7 @@ fn emit_nodes_with_continuation(
                         context,
                         fallback_continuation,
                     )?;
-                    let g_keys: Vec<String> = sub_container
-                        .named
-                        .keys()
-                        .filter(|key| key.starts_with("g-"))
-                        .cloned()
-                        .collect();
-                    for key in &g_keys {
-                        let old_path = format!("{}.{}", sub_scope.path, key);
-                        let new_path = format!("{}.{}", scope.path, key);
-                        for value in sub_container.content.iter_mut() {
-                            fix_divert_paths(value, &old_path, &new_path);
-                        }
-                        for value in sub_container.named.values_mut() {
-                            fix_divert_paths(value, &old_path, &new_path);
-                        }
-                    }
-                    for key in g_keys {
-                        let mut value = sub_container.named.remove(&key).unwrap();
-                        let hoisted_path = format!("{}.{}", scope.path, key);
-                        replace_self_divert_with_done(&mut value, &hoisted_path);
-                        out.insert_named(key, value);
-                    }
+                    hoist_gather_continuations(&mut out, &mut sub_container, &sub_scope, scope);
                     let gather_path = format!("{}.{}", scope.path, label);
                     let count_flags = gather_count_flags(&gather_path, context);
                     out.push(sub_container.into_json_array(Some(label), count_flags)?);
@@ -557,28 +583,7 @@ fn emit_nodes_with_continuation(
                         sub_container.push(token);
                     }
 
-                    let g_keys: Vec<String> = sub_container
-                        .named
-                        .keys()
-                        .filter(|key| key.starts_with("g-"))
-                        .cloned()
-                        .collect();
-                    for key in &g_keys {
-                        let old_path = format!("{}.{}", sub_scope.path, key);
-                        let new_path = format!("{}.{}", scope.path, key);
-                        for value in sub_container.content.iter_mut() {
-                            fix_divert_paths(value, &old_path, &new_path);
-                        }
-                        for value in sub_container.named.values_mut() {
-                            fix_divert_paths(value, &old_path, &new_path);
-                        }
-                    }
-                    for key in g_keys {
-                        let mut value = sub_container.named.remove(&key).unwrap();
-                        let hoisted_path = format!("{}.{}", scope.path, key);
-                        replace_self_divert_with_done(&mut value, &hoisted_path);
-                        out.insert_named(key, value);
-                    }
+                    hoist_gather_continuations(&mut out, &mut sub_container, &sub_scope, scope);
 
                     let gather_path = format!("{}.{}", scope.path, gather_label);
                     let count_flags = gather_count_flags(&gather_path, context);
